@@ -52,6 +52,7 @@ DELIVERABLES, per change, in {out}/{pid}_<n>/ :
   README.md    - title line; the change and why it looks plausible; which sentence of the property it breaks; what it needs in
                  order to manifest; the path where the demo test file must be placed (e.g. `sync/zz_seed_demo_{pid}_<n>_test.go`);
                  the commands you ran and their outcome (build, affected-package tests, full suite with the patch, demo with/without)
+Never use `git stash` (the stash is shared between all worktrees of the repository; use `git diff > file` / `git apply -R file` / `git checkout -- .` instead).
 Leave the worktree clean at the end (`git -C {wt} checkout -- . && git -C {wt} status --short` prints nothing; remove the demo
 files from it after copying them out). Reply with a short summary: for each change the title, files touched, what it needs to
 manifest, and the confirmation results. If you cannot find a second valid change, deliver one and say so.""")
